@@ -215,6 +215,10 @@ def main():
     for i in range(2 if quick else 8):
         rtasks.append({"op": "record_random", "wd": data_wd, "chunk": 500 + i, "seed": ck.seed, "tid0": 500000 + 1000 * i,
                        "n": 2, "alns": 40, "cfgs": 2, "wrong_md": 0.0, "n_sites": [130, 170], "spacing": [1, 3], "length": [40, 160]})
+    # a deep sample: several hundred distinct read names over one locus (depths and counts beyond a byte)
+    for i in range(1 if quick else 4):
+        rtasks.append({"op": "record_random", "wd": data_wd, "chunk": 700 + i, "seed": ck.seed, "tid0": 700000 + 1000 * i,
+                       "n": 1, "alns": 900, "cfgs": 2, "wrong_md": 0.0, "names": [300, 400]})
     rres = pool.map_tasks("impl.c06", rtasks, mode="jit")
     traces = []
     for t, rr in zip(rtasks, rres):
